@@ -20,6 +20,7 @@ claimed = {
 }
 STEP = "inductive single-step verification from an arbitrary invariant-satisfying state (symbolic ids/counters): histories of any length; data bounds only"
 claimed.update({
+ "C18": dict(text="Bounded symbolic run of the real Bridge.ServeHTTP over a real server.Local (threads) with symbolic members/ids; response body parsed back and matched to the request's calls; two concurrent callers with identical ids.", ref="4 (C18)", note="<= 2 members (thorough 3); HTTP stack replaced by recorders; delay bound 2"),
  "C19": dict(text="PARTIAL: bounded symbolic verification of ParseQuery/ParseBasic value typing, totality and marshalability, and of the Getter's status mapping over a real Local; the jhttp.Channel clause is outside this technique's reach here (stated in evidence and DESIGN.md).", ref="4 (C19), 5", note="strconv/base64 via representative strings; ParseForm stub; jhttp.Channel not covered"),
  "C20": dict(text="Bounded symbolic run of the real Loop with real servers as engine threads over a scripted accepter; service/Finish accounting and return value asserted on every explored schedule.", ref="4 (C20)", note="<= 2 connections; delay bound 2; NetAccepter outside"),
  "C11": dict(text="Bounded symbolic round trip through the real Send, the real bufio.Reader (from source) and the real Recv for Split and Header framings under symbolic fragmentation; record bytes symbolic.", ref="4 (C11)", note="records <= 3 bytes (+ one long), 16-byte bufio buffer, listed chunk policies; RawJSON/Direct outside"),
